@@ -1568,6 +1568,10 @@ func (vm *Thread) BuildStackTrace() *value.StackTrace {
 }
 
 func (vm *Thread) BuildStackTracePrepend(base *value.StackTrace) *value.StackTrace {
+	if base == nil {
+		// promises rejected by native code carry no stack trace
+		return vm.BuildStackTrace()
+	}
 	callStack := vm.callStack()
 
 	stackTraceSlice := make([]value.CallFrame, 0, len(*base)+len(callStack)+1)
